@@ -80,14 +80,16 @@ RunCall(prog, call, globals) ==
    IN [out |-> m.out, ok |-> m.ok]
 
 \* globals made right before call j stay for every later call
-GlobalsAt(prog, calls, i) == prog.globals \cup UNION {calls[j].mk : j \in 1..i}
+\* (a restore takes the globals made since the snapshot away again)
+LastRedef(calls, i) == LET s == {j \in 1..i : calls[j].redef} IN IF s = {} THEN 0 ELSE CHOOSE j \in s : \A k \in s : k <= j
+GlobalsAt(prog, calls, i) == prog.globals \cup UNION {calls[j].mk : j \in (LastRedef(calls, i) + 1)..i} \cup (IF LastRedef(calls, i) > 0 THEN calls[LastRedef(calls, i)].mk ELSE {})
 Expect(prog, calls) == [i \in 1..Len(calls) |-> RunCall(prog, calls[i], GlobalsAt(prog, calls, i))]
 
 \* ---------------------------------------------------------------- the enumerated family
 CONSTANTS Family,      \* "small" (exhaustive) | "random"
           NRandom      \* number of random cases
 
-Calls == [kind : {"free", "attr"}, flags : SUBSET Flags, mk : {{}}]
+Calls == [kind : {"free", "attr"}, flags : SUBSET Flags, mk : {{}}, redef : {FALSE}]
 
 SmallBodies == {<<s1, s2>> : s1 \in Simple, s2 \in Simple}
                \cup {<<s1, s2, Blk(<<s3>>)>> : s1 \in Simple, s2 \in Simple, s3 \in Simple}
@@ -106,9 +108,12 @@ RandomCase(i) == LET body == RandomElement(BigBodies)
 \* tiers: names that are functions from the start, globals of the same name created between the calls
 TierBodies == {<<S(n)>> : n \in Names} \cup {<<S(n), Blk(<<S(n)>>)>> : n \in Names} \cup {<<S("a"), S("h")>>}
               \cup {<<S(n), Blk(<<D(n), S(n)>>), S(n)>> : n \in Names} \cup {<<Y(1, "a"), S("a")>>}
-TierCalls == [kind : {"free", "attr"}, flags : {{}, {1}}, mk : {{}, {"a"}, {"h"}}]
+\* redef: before the call the engine is taken back to a snapshot from before the functions existed (set_state) and the functions
+\* are defined again in the OPPOSITE order - by name nothing changes, but every position in the function tables does
+TierCalls == [kind : {"free", "attr"}, flags : {{}, {1}}, mk : {{}, {"a"}, {"h"}}, redef : BOOLEAN]
 TierProgs == [body : TierBodies, globals : {{}}, caps : {{}}, nparams : {0}, funs : {{"a"}, {"a", "h"}}]
-TierCases == {[prog |-> p, calls |-> <<c1, c2, c3>>] : p \in TierProgs, c1 \in {c \in TierCalls : c.mk = {}}, c2 \in TierCalls, c3 \in {c \in TierCalls : c.flags = {}}}
+TierCases == {[prog |-> p, calls |-> <<c1, c2, c3>>] : p \in TierProgs, c1 \in {c \in TierCalls : c.mk = {} /\ ~c.redef},
+                                                           c2 \in {c \in TierCalls : c.redef => c.mk = {}}, c3 \in {c \in TierCalls : c.flags = {} /\ ~c.redef}}
 
 Record(i, c) == [id |-> i, prog |-> c.prog, calls |-> c.calls, expect |-> Expect(c.prog, c.calls)]
 
